@@ -7,6 +7,7 @@ Line protocol of the C08 model (fast fields / columnar).
 
   pack <w> <vals>                    -> hex of BitPacker output
   unpack <w> <hex> <idxs>            -> values BitUnpacker::get returns at idxs (`bad-width` if refused)
+  rangeids <w> <hex> <lo> <hi> <s> <e> -> positions BitUnpacker::get_ids_for_value_range reports
   numbits <n>                        -> compute_num_bits
   stats <vals>                       -> `min max gcd rows`
   transform <min> <gcd> <lo> <hi>    -> `a b` | none (transform_range_before_linear_transformation as the source has it)
@@ -81,6 +82,11 @@ def handle : List String → String
     | some w, some data, some is =>
       if unpackerWidthOk w then showNatList (is.map (fun i => unpackGet w i data)) else "bad-width"
     | _, _, _ => "bad-op"
+  | ["rangeids", w, h, lo, hi, st, en] =>
+    match w.toNat?, bytesArg h, lo.toNat?, hi.toNat?, st.toNat?, en.toNat? with
+    | some w, some data, some lo, some hi, some st, some en =>
+      if unpackerWidthOk w then showNatList (unpackRangeIds w data lo hi st en) else "bad-width"
+    | _, _, _, _, _, _ => "bad-op"
   | ["numbits", n] =>
     match n.toNat? with
     | some n => toString (computeNumBits n)
